@@ -57,7 +57,7 @@ Definition nonbindingb (courses : list course) (es : nat -> nat -> nat) (rs : li
 Definition check_solve (c : solve_case) : N :=
   let '(pcs, pps, rooms, k, evs, res, outcome, stats, qual, better) := c in
   let courses := map mk_course pcs in let parts := map mk_part pps in let params := mk_params pcs in
-  let es := esize32 params in let sf := shrinkf32 params in
+  let es := esize32 params in let sf := fixed_shrink courses (shrinkf32 params) in
   let f := f_full courses parts es sf rooms in
   let '(fin, maxok) := replay_s f (init node assignment root CorrTree.smin CorrTree.smax k) evs 0 true in
   let cls := Spec.validb courses parts && float_saneb courses es sf rooms in
